@@ -41,11 +41,30 @@ static void fn0() {} static void fn1() {} static void fn2() {} static void fn3()
 typedef void (*vfn)();
 static const vfn V_FN[] = { fn0, fn1, fn2, fn3 };
 struct MemV { unsigned char b[4]; size_t n; };
-static const MemV V_MEM[] = { { { 1, 2, 3, 0 }, 3 }, { { 1, 2, 4, 0 }, 3 }, { { 1, 2, 0, 0 }, 2 }, { { 0xff, 0, 0, 0 }, 1 }, { { 1, 2, 3, 0 }, 4 } };
-static unsigned char memA[5][4], memB[5][4];
+static const MemV V_MEM[] = { { { 1, 2, 3, 0 }, 3 }, { { 1, 2, 4, 0 }, 3 }, { { 1, 2, 0, 0 }, 2 }, { { 0xff, 0, 0, 0 }, 1 }, { { 1, 2, 3, 0 }, 4 }, { { 0, 0, 0, 0 }, 0 } };   // the last one is the empty buffer
+static unsigned char memA[6][4], memB[6][4];
 static const int V_OBJ[] = { 7, 9, -3, 100 };
 static int objA[4], objB[4];
-static const int NV[T_N] = { 6, 5, 6, 5, 6, 5, 2, 6, 6, 5, 5, 4, 5, 4 };
+static const int NV[T_N] = { 6, 5, 6, 5, 6, 5, 2, 6, 6, 5, 5, 4, 6, 4 };
+
+// Where the bytes of by-reference parameter values (strings, memory buffers, objects of a custom type) live. A value is its content (and, for a buffer,
+// its length) - never its address: the verdict must not depend on whether expectation and actual call read separate copies, the very same array, or
+// different pieces of one backing array (a buffer and its prefix / extension / the empty buffer at one base address; a string and its tail).
+enum ST { ST_SEPARATE, ST_SAME, ST_SHARED, ST_N };
+static const char* ST_NAME[ST_N] = { "separate-copies", "same-array-on-both-sides", "values-are-pieces-of-one-backing-array" };
+static int g_storage = ST_SEPARATE;
+static unsigned char memS[4] = { 1, 2, 3, 0 };       // backing array of the buffers {1,2,3} {1,2} {1,2,3,0} {} (values 0, 2, 4, 5)
+static char strS[4] = "ab";                           // backing array of the strings "ab", "b", "" (values 3, 2, 0)
+static bool mem_in_family(int vi) { return vi == 0 || vi == 2 || vi == 4 || vi == 5; }
+static const unsigned char* mem_addr(int storage, bool actualSide, int vi) {
+    if (storage == ST_SHARED && mem_in_family(vi)) return memS;
+    return storage == ST_SEPARATE && actualSide ? memB[vi] : memA[vi];
+}
+static const char* str_addr(int storage, bool actualSide, int vi) {
+    if (storage == ST_SHARED) { if (vi == 3) return strS; if (vi == 2) return strS + 1; if (vi == 0) return strS + 2; }
+    return storage == ST_SEPARATE && actualSide ? strB[vi] : strA[vi];
+}
+static int* obj_addr(int storage, bool actualSide, int vi) { return storage == ST_SEPARATE && actualSide ? &objB[vi] : &objA[vi]; }
 
 static std::string val_text(int t, int vi) {
     char b[64];
@@ -102,6 +121,13 @@ struct CallD {
     std::string scope, name; std::vector<Item> items; int fetch; int retType; int intended;
     std::string fq() const { return scope.empty() ? name : scope + "::" + name; }
 };
+// entries in the mock's named data store (mock().setData / setDataObject). They are no expectations and no calls: the verdict must not depend on them,
+// wherever and whenever they are stored (the store is shared with the mock's scopes).
+enum DK { DK_INT, DK_UINT, DK_BOOL, DK_STR, DK_DOUBLE, DK_PTR, DK_CPTR, DK_FPTR, DK_OBJ, DK_COBJ, DK_N };
+static const char* DK_NAME[DK_N] = { "int", "unsigned", "bool", "string", "double", "pointer", "const-pointer", "function-pointer", "object", "const-object" };
+enum DW { W_SETUP, W_AFTER_EXPECTATIONS, W_BEFORE_CALL, W_BEFORE_VERDICT, W_N };      // W_SETUP: before the at-th scope of the scenario is used for the first time (at = #scopes: after all of them)
+static const char* DW_NAME[W_N] = { "before-scope", "after-the-expectations", "before-call", "before-the-verdict" };
+struct DataD { std::string store, name; int kind = DK_INT, when = W_SETUP; size_t at = 0; };
 enum MODE { M_FIXTURE, M_PLUGIN, M_RECORD, M_N };
 static const char* MODE_NAME[M_N] = { "fixture+default-reporter", "fixture+MockSupportPlugin", "fixture+recording-reporter" };
 // earlier tests of the same run (same TestResult, same registry / plugin) that precede the judged scenario: the verdict of a test must not depend on them
@@ -114,7 +140,21 @@ struct Scenario {
     std::vector<std::string> ignoreScopes;        // scopes with ignoreOtherCalls ("" means mock().ignoreOtherCalls(), which covers every scope)
     bool strict = false; int mode = M_FIXTURE; bool ignoreBeforeExpectations = false; bool usesT1 = false;
     std::vector<ExpD> exps; std::vector<CallD> calls; std::string deviation = "none"; bool permuted = false;
+    int storage = ST_SEPARATE;                    // of by-reference parameter values (see ST)
+    std::vector<DataD> data;                      // entries put into the mock's data store while the scenario runs
 };
+// the scopes that come into existence after an entry was put into the global mock's data store (scopes and data entries share one list)
+static std::set<std::string> scopes_created_after_data(const Scenario& s) {
+    std::set<std::string> created, after; bool dataSeen = false;
+    for (size_t k = 0; k <= s.scopes.size(); k++) {
+        for (const DataD& d : s.data) if (d.when == W_SETUP && d.at == k) {
+            if (d.store.empty()) dataSeen = true;
+            else if (created.insert(d.store).second && dataSeen) after.insert(d.store);
+        }
+        if (k < s.scopes.size() && !s.scopes[k].empty() && created.insert(s.scopes[k]).second && dataSeen) after.insert(s.scopes[k]);
+    }
+    return after;
+}
 
 static const Item* find_item(const std::vector<Item>& v, int kindA, int kindB, const std::string& name) {
     for (const Item& i : v) if ((i.kind == kindA || i.kind == kindB) && i.name == name) return &i;
@@ -238,6 +278,7 @@ struct Model {
     std::string shape = "fresh";           // history shape of the deviating call (see partial_prior)
     std::set<std::string> lacks;           // what the deviating call lacks relative to an open expectation that otherwise contains it
     std::set<int> closest;                 // the smallest set of differences to one open expectation (names the input class in violation keys)
+    std::set<std::string> openScopes;      // end-of-test failure: the scopes that hold the unfulfilled expectations
 };
 
 static std::string ordinal_text(unsigned n) {
@@ -332,6 +373,7 @@ static Model run_model(const Scenario& s) {
     if (m.devIdx >= 0) return m;
     bool left = false;
     for (auto& kv : remaining) if (kv.second > 0) left = true;
+    if (left) for (const ExpD& e : s.exps) if (remaining[class_key(e)] > 0) m.openScopes.insert(e.scope);
     if (left) { m.accept.insert(K_UNFULFILLED); if (m.orderBrokenAt >= 0) m.accept.insert(K_OUT_OF_ORDER); }
     else if (m.orderBrokenAt >= 0) m.accept.insert(K_OUT_OF_ORDER);
     return m;
@@ -389,12 +431,12 @@ static void expect_in(MockExpectedCall& ec, const Item& it) {
     case T_ULL: ec.withParameter(n, V_ULL[it.vi]); break;
     case T_BOOL: ec.withParameter(n, V_BOOL[it.vi]); break;
     case T_DOUBLE: ec.withParameter(n, V_DOUBLE[it.vi]); break;
-    case T_STR: ec.withParameter(n, (const char*) strA[it.vi]); break;
+    case T_STR: ec.withParameter(n, str_addr(g_storage, false, it.vi)); break;
     case T_PTR: ec.withParameter(n, (void*) &pobj[it.vi]); break;
     case T_CPTR: ec.withParameter(n, (const void*) &pobj[it.vi]); break;
     case T_FPTR: ec.withParameter(n, V_FN[it.vi]); break;
-    case T_MEM: ec.withParameter(n, (const unsigned char*) memA[it.vi], V_MEM[it.vi].n); break;
-    default: ec.withParameterOfType("T1", n, &objA[it.vi]); break;
+    case T_MEM: ec.withParameter(n, mem_addr(g_storage, false, it.vi), V_MEM[it.vi].n); break;
+    default: ec.withParameterOfType("T1", n, obj_addr(g_storage, false, it.vi)); break;
     }
 }
 static void pass_in(MockActualCall& ac, const Item& it) {
@@ -408,12 +450,12 @@ static void pass_in(MockActualCall& ac, const Item& it) {
     case T_ULL: ac.withParameter(n, V_ULL[it.vi]); break;
     case T_BOOL: ac.withParameter(n, V_BOOL[it.vi]); break;
     case T_DOUBLE: ac.withParameter(n, V_DOUBLE[it.vi]); break;
-    case T_STR: ac.withParameter(n, (const char*) strB[it.vi]); break;
+    case T_STR: ac.withParameter(n, str_addr(g_storage, true, it.vi)); break;
     case T_PTR: ac.withParameter(n, (void*) &pobj[it.vi]); break;
     case T_CPTR: ac.withParameter(n, (const void*) &pobj[it.vi]); break;
     case T_FPTR: ac.withParameter(n, V_FN[it.vi]); break;
-    case T_MEM: ac.withParameter(n, (const unsigned char*) memB[it.vi], V_MEM[it.vi].n); break;
-    default: ac.withParameterOfType("T1", n, &objB[it.vi]); break;
+    case T_MEM: ac.withParameter(n, mem_addr(g_storage, true, it.vi), V_MEM[it.vi].n); break;
+    default: ac.withParameterOfType("T1", n, obj_addr(g_storage, true, it.vi)); break;
     }
 }
 
@@ -520,21 +562,44 @@ static bool run_call(const CallD& c, CallRec& r) {
     return !rec_failed();
 }
 
+static int g_dataObj; static unsigned g_dataStored;
+static void store_data(const DataD& d) {
+    MockSupport& ms = ms_of(d.store); const char* n = d.name.c_str();
+    switch (d.kind) {
+    case DK_INT: ms.setData(n, -9600); break;
+    case DK_UINT: ms.setData(n, 9600u); break;
+    case DK_BOOL: ms.setData(n, true); break;
+    case DK_STR: ms.setData(n, "data"); break;
+    case DK_DOUBLE: ms.setData(n, 2.75); break;
+    case DK_PTR: ms.setData(n, (void*) &g_dataObj); break;
+    case DK_CPTR: ms.setData(n, (const void*) &g_dataObj); break;
+    case DK_FPTR: ms.setData(n, fn0); break;
+    case DK_OBJ: ms.setDataObject(n, "DataObj", &g_dataObj); break;
+    default: ms.setDataConstObject(n, "DataObj", &g_dataObj); break;
+    }
+    g_dataStored++;
+}
+static void store_data_due(const Scenario& s, int when, size_t at) { for (const DataD& d : s.data) if (d.when == when && d.at == at) store_data(d); }
+
 static void body() {
     const Scenario& s = *g_sc;
     if (s.mode == M_RECORD) mock().setMockFailureStandardReporter(g_rep);
-    for (const std::string& sc : s.scopes) if (!sc.empty()) mock(sc.c_str());
+    for (size_t k = 0; k < s.scopes.size(); k++) { store_data_due(s, W_SETUP, k); if (!s.scopes[k].empty()) mock(s.scopes[k].c_str()); }
+    store_data_due(s, W_SETUP, s.scopes.size());
     if (s.mode != M_PLUGIN && s.usesT1) { mock().installComparator("T1", g_cmp); mock().installCopier("T1", g_cop); }
     if (s.strict) for (const std::string& sc : s.scopes) ms_of(sc).strictOrder();
     if (s.ignoreBeforeExpectations) for (const std::string& sc : s.ignoreScopes) ms_of(sc).ignoreOtherCalls();
     for (const ExpD& e : s.exps) declare_expectation(e);
+    store_data_due(s, W_AFTER_EXPECTATIONS, 0);
     if (!s.ignoreBeforeExpectations) for (const std::string& sc : s.ignoreScopes) ms_of(sc).ignoreOtherCalls();
     for (size_t i = 0; i < s.calls.size(); i++) {
+        store_data_due(s, W_BEFORE_CALL, i);
         g_rec[i].started = true;
         if (!run_call(s.calls[i], g_rec[i])) { g_bodyDone = true; return; }
         g_rec[i].returned = true;
     }
     if (rec_failed()) { g_bodyDone = true; return; }
+    store_data_due(s, W_BEFORE_VERDICT, 0);
     g_reachedEnd = true;
     if (s.mode != M_PLUGIN) mock().checkExpectations();
     g_bodyDone = true;
@@ -554,7 +619,7 @@ static void pre_body() {
     }
 }
 
-struct Observed { std::vector<size_t> historyFailures; size_t failures = 0; std::vector<std::string> firstLines; int failPos = -1; bool atEnd = false; bool fixtureFailuresInRecordMode = false; };
+struct Observed { std::vector<size_t> historyFailures; size_t failures = 0; std::vector<std::string> firstLines; int failPos = -1; bool atEnd = false; bool fixtureFailuresInRecordMode = false; unsigned dataStored = 0; };
 
 static void reset_mock() {
     mock().clear();
@@ -566,7 +631,7 @@ static Observed run_real(const Scenario& s) {
     Observed o;
     reset_mock();
     for (size_t i = 0; i < MAXCALLS; i++) { CallRec& r = g_rec[i]; r.started = r.returned = r.hasRet = r.gotDefault = r.fetched = false; r.retId = -1; memset(r.buf, 0xEE, sizeof r.buf); for (int k = 0; k < NSLOT; k++) r.typedDst[k] = -1; }
-    g_sc = &s; g_reachedEnd = g_bodyDone = false;
+    g_sc = &s; g_reachedEnd = g_bodyDone = false; g_storage = s.storage; g_dataStored = 0;
     RecReporter rep; g_rep = s.mode == M_RECORD ? &rep : nullptr;
     std::string text;
     {
@@ -606,7 +671,8 @@ static Observed run_real(const Scenario& s) {
     }
     g_rep = nullptr;
     for (size_t i = 0; i < s.calls.size(); i++) if (g_rec[i].started && !g_rec[i].returned) { o.failPos = (int) i; break; }
-    o.atEnd = g_reachedEnd;
+    o.atEnd = g_reachedEnd; o.dataStored = g_dataStored;
+    g_storage = ST_SEPARATE;
     reset_mock();
     return o;
 }
@@ -830,14 +896,18 @@ struct FSig {
 
 static int other_value(vf::Rng& r, int type, int vi) { int n = NV[type]; int v = (int) r.below((uint64_t) n - 1); return v >= vi ? v + 1 : v; }
 
+static bool g_refBias = false;          // section by_reference_value_storage: most parameters are strings / memory buffers / custom-type objects, most deviations a wrong value
 static FSig gen_function(vf::Rng& r, const std::string& scope, const std::string& name, bool allowLazy) {
     FSig f; f.scope = scope; f.name = name;
     static const char* PN[] = { "a", "b", "c" };
+    static const int BYREF[] = { T_STR, T_MEM, T_MEM, T_OBJ };
     size_t nIn = r.below(4);
+    if (g_refBias && nIn == 0) nIn = 1;
     for (size_t k = 0; k < nIn; k++) {
         PSig p; p.name = PN[k];
-        p.type = r.chance(45) ? (int) r.below(6) : (int) r.below(T_N);
-        int want = p.type == T_BOOL ? 2 : r.range(2, 3);
+        if (g_refBias && r.chance(75)) p.type = r.pick(BYREF);
+        else p.type = r.chance(45) ? (int) r.below(6) : (int) r.below(T_N);
+        int want = p.type == T_BOOL ? 2 : g_refBias ? r.range(2, 4) : r.range(2, 3);
         std::set<int> pool; while ((int) pool.size() < want) pool.insert((int) r.below((uint64_t) NV[p.type]));
         p.pool.assign(pool.begin(), pool.end());
         f.in.push_back(p);
@@ -988,6 +1058,26 @@ static bool mutate_call(vf::Rng& r, int dev, CallD& c) {
 
 static void permute_items(vf::Rng& r, CallD& c) { for (size_t k = c.items.size(); k > 1; k--) std::swap(c.items[k - 1], c.items[r.below(k)]); }
 
+// Dimensions the verdict must not depend on; drawn after everything else of the scenario.
+static void gen_environment(vf::Rng& r, Scenario& s) {
+    if (g_refBias) { static const int W[] = { ST_SEPARATE, ST_SAME, ST_SAME, ST_SHARED, ST_SHARED, ST_SHARED }; s.storage = r.pick(W); }
+    else s.storage = r.chance(65) ? ST_SEPARATE : r.chance(40) ? ST_SAME : ST_SHARED;
+    bool scoped = false; for (const std::string& sc : s.scopes) if (!sc.empty()) scoped = true;
+    if (r.chance(g_refBias ? 15 : scoped ? 60 : 30)) {              // scopes and data entries live in one list: most interesting together
+        static const char* DN[] = { "d0", "d1", "d2", "s1", "f" };            // names of data entries live in their own name space (scopes are stored under a prefixed name)
+        size_t n = (size_t) r.range(1, 3);
+        for (size_t k = 0; k < n; k++) {
+            DataD d; d.name = r.pick(DN); d.kind = (int) r.below(DK_N);
+            d.store = r.chance(75) ? std::string() : r.pick(s.scopes);
+            d.when = r.chance(55) ? W_SETUP : (int) r.below(W_N);
+            if (d.when == W_SETUP) d.at = r.below(s.scopes.size() + 1);
+            else if (d.when == W_BEFORE_CALL) { if (s.calls.empty()) d.when = W_AFTER_EXPECTATIONS; else d.at = r.below(s.calls.size()); }
+            if (k == 0 && scoped && r.chance(45)) { d.store.clear(); d.when = W_SETUP; d.at = 0; }       // in front of every scope
+            s.data.push_back(d);
+        }
+    }
+}
+
 static void gen_single_deviation(vf::Rng& r, Scenario& s, bool permute) {
     Gen g; gen_world(r, s, g, true);
     s.permuted = permute;
@@ -1007,7 +1097,7 @@ static void gen_single_deviation(vf::Rng& r, Scenario& s, bool permute) {
     int dev = D_NONE;
     if (r.chance(68)) {
         for (int attempt = 0; attempt < 12 && dev == D_NONE; attempt++) {
-            int d = r.range(1, D_N - 1);
+            int d = g_refBias && r.chance(50) ? D_WRONG_VALUE : r.range(1, D_N - 1);
             switch (d) {
             case D_UNKNOWN: s.calls.insert(s.calls.begin() + (long) r.below(s.calls.size() + 1), unknown_call(r, s)); dev = d; break;
             case D_SURPLUS: if (!s.calls.empty()) { CallD cp = s.calls[r.below(s.calls.size())]; s.calls.insert(s.calls.begin() + (long) r.below(s.calls.size() + 1), cp); dev = d; } break;
@@ -1020,6 +1110,7 @@ static void gen_single_deviation(vf::Rng& r, Scenario& s, bool permute) {
     }
     s.deviation = DEV_NAME[dev];
     if (permute) for (CallD& c : s.calls) permute_items(r, c);
+    gen_environment(r, s);
 }
 
 static void gen_random_sequence(vf::Rng& r, Scenario& s) {
@@ -1041,6 +1132,7 @@ static void gen_random_sequence(vf::Rng& r, Scenario& s) {
         s.calls.push_back(c);
     }
     s.deviation = "random-sequence";
+    gen_environment(r, s);
 }
 
 // ====================================================================== sections
@@ -1051,9 +1143,12 @@ static std::string describe(const Scenario& s, const Model& m) {
     for (const std::string& g : s.ignoreScopes) ig.push_back(vf::jstr(g.empty() ? "<all>" : g));
     for (const std::string& g : s.scopes) sc.push_back(vf::jstr(g.empty() ? "<global>" : g));
     std::vector<std::string> hi; for (int k : s.history) hi.push_back(vf::jstr(PRE_NAME[k]));
+    std::vector<std::string> da;
+    for (const DataD& d : s.data) da.push_back(vf::jstr((d.store.empty() ? std::string("mock()") : "mock(" + d.store + ")") + ".setData(" + d.name + ":" + DK_NAME[d.kind] + ") " + DW_NAME[d.when] +
+                                                        (d.when == W_SETUP ? " " + (d.at < s.scopes.size() ? (s.scopes[d.at].empty() ? std::string("<global>") : s.scopes[d.at]) : std::string("<none: after all scopes>")) : d.when == W_BEFORE_CALL ? " " + std::to_string(d.at) : std::string())));
     std::string mv = m.undecidable ? "outside-unambiguous-class" : m.devIdx >= 0 ? "first deviation at call " + std::to_string(m.devIdx) + " {" + kinds_text(m.accept) + "}" : m.accept.empty() ? "pass" : "fails at end {" + kinds_text(m.accept) + "}";
     return vf::J().k("mode", MODE_NAME[s.mode]).raw("earlier_tests_of_the_same_run", vf::jarr(hi)).k("strict_order", s.strict).raw("scopes", vf::jarr(sc)).raw("ignore_other_calls", vf::jarr(ig)).k("ignore_declared_before_expectations", s.ignoreBeforeExpectations)
-        .k("injected_deviation", s.deviation).k("permuted_parameter_order", s.permuted).raw("expectations", vf::jarr(ex)).raw("calls", vf::jarr(ca)).k("model_verdict", mv).str();
+        .k("by_reference_value_storage", ST_NAME[s.storage]).raw("mock_data_entries", vf::jarr(da)).k("injected_deviation", s.deviation).k("permuted_parameter_order", s.permuted).raw("expectations", vf::jarr(ex)).raw("calls", vf::jarr(ca)).k("model_verdict", mv).str();
 }
 
 static void run_scenario(vf::Ctx& c, const Scenario& s) {
@@ -1073,14 +1168,27 @@ static void run_scenario(vf::Ctx& c, const Scenario& s) {
         c.count(std::string("earlier_test_") + PRE_NAME[s.history[h]]);
         if (pre_fails(s.history[h])) failedBefore = true;
     }
-    if (!k.viol.empty() && !s.history.empty()) {
-        // history shape of the violation: is the same scenario judged correctly as the first test of a run?
-        Scenario alone = s; alone.history.clear();
-        Observed o2 = run_real(alone);
-        Sink k2; judge(k2, alone, m, o2);
-        for (auto& v : k.viol) {
-            bool also = false; for (auto& w : k2.viol) if (w.first == v.first) also = true;
-            if (!also) { v.first += failedBefore ? ":only-after-a-failed-test-of-the-run" : ":only-after-earlier-tests-of-the-run"; v.second += "  [the same scenario run as the first test of a run is judged correctly]"; }
+    if (!k.viol.empty()) {
+        // shape of the violation: is the same scenario judged correctly (a) as the first test of a run, (b) with nothing in the mock's data store,
+        // (c) with expectation and actual call reading their by-reference values from separate copies? The model does not depend on any of the three.
+        std::vector<std::string> orig; for (auto& v : k.viol) orig.push_back(v.first);
+        auto annotate = [&](const Scenario& alt, const std::string& suffix, const std::string& note) {
+            Observed o2 = run_real(alt);
+            Sink k2; judge(k2, alt, m, o2);
+            for (size_t q = 0; q < k.viol.size(); q++) {
+                bool also = false; for (auto& w : k2.viol) if (w.first == orig[q]) also = true;
+                if (!also) { k.viol[q].first += suffix; k.viol[q].second += note; }
+            }
+        };
+        if (!s.history.empty()) { Scenario alt = s; alt.history.clear(); annotate(alt, failedBefore ? ":only-after-a-failed-test-of-the-run" : ":only-after-earlier-tests-of-the-run", "  [the same scenario run as the first test of a run is judged correctly]"); }
+        if (!s.data.empty()) {
+            Scenario alt = s; alt.data.clear();
+            bool before = !scopes_created_after_data(s).empty();
+            annotate(alt, before ? ":only-with-a-mock-data-entry-stored-before-a-scope-came-into-existence" : ":only-with-entries-in-the-mock-data-store", "  [the same scenario without setData()/setDataObject() entries is judged correctly]");
+        }
+        if (s.storage != ST_SEPARATE) {
+            Scenario alt = s; alt.storage = ST_SEPARATE;
+            annotate(alt, s.storage == ST_SAME ? ":only-when-expectation-and-call-pass-the-same-array" : ":only-when-values-are-pieces-of-one-backing-array", "  [the same scenario with expectation and actual call reading separate copies of their string / buffer / object values is judged correctly]");
         }
     }
     for (auto& v : k.viol) c.violation(v.first, v.second);
@@ -1096,6 +1204,39 @@ static void run_scenario(vf::Ctx& c, const Scenario& s) {
         if (failedBefore && m.devIdx < 0 && m.accept.empty()) c.count(std::string("passes_due_after_a_failed_test_of_the_run_") + modeShort);
     }
     c.count(std::string("mode_") + (s.mode == M_FIXTURE ? "fixture" : s.mode == M_PLUGIN ? "plugin" : "recording"));
+    // the data store shared by scopes and data entries
+    if (!s.data.empty()) {
+        std::set<std::string> after = scopes_created_after_data(s);
+        c.count("scenarios_with_mock_data_entries"); c.count("mock_data_entries_stored", o.dataStored);
+        for (const DataD& d : s.data) c.count(std::string("mock_data_entry_") + DW_NAME[d.when]);
+        if (!after.empty()) c.count("scenarios_with_a_scope_created_after_a_mock_data_entry");
+        bool hasCallInSuch = false; for (const CallD& cl : s.calls) if (after.count(cl.scope)) hasCallInSuch = true;
+        if (hasCallInSuch) c.count("scenarios_with_calls_in_a_scope_created_after_a_mock_data_entry");
+        if (m.devIdx < 0 && !m.openScopes.empty()) {
+            bool all = true; for (const std::string& sc : m.openScopes) if (!after.count(sc)) all = false;
+            if (all) c.count("unfulfilled_expectations_only_in_scopes_created_after_a_mock_data_entry");
+        }
+    }
+    // storage of by-reference values
+    c.count(std::string("storage_") + ST_NAME[s.storage]);
+    {
+        unsigned byref = 0, sameBaseOtherLength = 0; bool devOnSharedAddress = false;
+        for (size_t i = 0; i < s.calls.size(); i++) for (const Item& ci : s.calls[i].items) {
+            if (ci.kind != I_IN || (ci.type != T_STR && ci.type != T_MEM && ci.type != T_OBJ)) continue;
+            byref++;
+            if (ci.type != T_MEM) continue;
+            for (const ExpD& e : s.exps) {
+                if (e.fq() != s.calls[i].fq()) continue;
+                const Item* ei = find_item(e.items, I_IN, I_IN, ci.name);
+                if (!ei || ei->type != T_MEM || ei->vi == ci.vi) continue;
+                if (mem_addr(s.storage, false, ei->vi) == mem_addr(s.storage, true, ci.vi)) { sameBaseOtherLength++; if ((int) i == m.devIdx) devOnSharedAddress = true; }
+            }
+        }
+        if (byref) c.count("by_reference_parameter_values_passed", byref);
+        if (byref && s.storage != ST_SEPARATE) c.count("by_reference_parameter_values_passed_from_storage_shared_with_the_expectations", byref);
+        if (sameBaseOtherLength) c.count("buffers_passed_at_the_base_address_of_an_expected_buffer_of_another_length", sameBaseOtherLength);
+        if (devOnSharedAddress) c.count("deviating_calls_passing_a_buffer_at_the_base_address_of_an_expected_buffer_of_another_length");
+    }
     c.count("deviation_" + s.deviation);
     c.count(m.devIdx >= 0 ? "model_call_level_deviation" : m.accept.empty() ? "model_pass" : "model_end_of_test_failure");
     if (m.devIdx >= 0 || !m.accept.empty()) for (int k : m.accept) c.count(std::string("model_accepts_") + KIND_NAME[k]);
@@ -1120,6 +1261,7 @@ static void run_scenario(vf::Ctx& c, const Scenario& s) {
 static void sec_single(vf::Ctx& c) { g_thorough = c.thorough; Scenario s; gen_single_deviation(c.rng, s, false); run_scenario(c, s); }
 static void sec_random(vf::Ctx& c) { g_thorough = c.thorough; Scenario s; gen_random_sequence(c.rng, s); run_scenario(c, s); }
 static void sec_permuted(vf::Ctx& c) { g_thorough = c.thorough; Scenario s; gen_single_deviation(c.rng, s, true); run_scenario(c, s); }
+static void sec_byref(vf::Ctx& c) { g_thorough = c.thorough; g_refBias = true; Scenario s; gen_single_deviation(c.rng, s, c.rng.chance(25)); g_refBias = false; run_scenario(c, s); }
 
 // ---------------------------------------------------------------- cross-type integer parameters (complete lattice)
 // An expectation and an actual call may pass one parameter through different integer types; the verdict
@@ -1196,7 +1338,7 @@ static void sec_crosstype(vf::Ctx& c) {
 int main(int argc, char** argv) {
     init_xcases();
     for (int i = 0; i < 6; i++) { strcpy(strA[i], V_STRTXT[i]); strcpy(strB[i], V_STRTXT[i]); }
-    for (int i = 0; i < 5; i++) { memcpy(memA[i], V_MEM[i].b, 4); memcpy(memB[i], V_MEM[i].b, 4); }
+    for (int i = 0; i < 6; i++) { memcpy(memA[i], V_MEM[i].b, 4); memcpy(memB[i], V_MEM[i].b, 4); }
     for (int i = 0; i < 4; i++) { objA[i] = V_OBJ[i]; objB[i] = V_OBJ[i]; }
     for (int i = 0; i < 32; i++) {
         for (int sl = 0; sl < NOUT; sl++) {
@@ -1211,6 +1353,7 @@ int main(int argc, char** argv) {
         { "single_deviation", 60000, 1200000, sec_single, false },
         { "random_sequences", 25000, 500000, sec_random, false },
         { "permuted_parameter_order", 12000, 250000, sec_permuted, false },
+        { "by_reference_value_storage", 10000, 200000, sec_byref, false },
         { "cross_type_integer_parameters", g_xcases.size(), g_xcases.size(), sec_crosstype, true },
     };
     return vf::harness_main(argc, argv, S, nullptr);
